@@ -67,6 +67,15 @@ impl<'a> Gram<'a> {
                 "'|'",
                 "'\\''",
                 "' '",
+                // characters that a debug-style printer would escape in ways the lexer does not know
+                "\"zero\u{200b}width\"",
+                "\"del\u{7f}\"",
+                "\"nul\u{0}\"",
+                "\"bell\u{7}esc\u{1b}\"",
+                "\"rtl\u{202e}\u{feff}\"",
+                "\"cr\\r tab\\t\"",
+                // a decimal beyond the range of Float64
+                "1e999",
             ]))
             .to_string();
         }
@@ -101,7 +110,7 @@ impl<'a> Gram<'a> {
         if self.format_directives && self.rng.chance(1, 3) {
             let opts = [
                 "width(40)", "width(1)", "width(200)", "indent(4)", "indent(1)", "layout(preserve)", "layout(blank_lines)", "layout(ignore)",
-                "parentheses(minimal)", "parentheses(preserve)", "verbatim",
+                "parentheses(minimal)", "parentheses(preserve)", "verbatim", "indent(1000000000000)", "width(1000000000000)", "indent(0)", "width(0)",
             ];
             let n = 1 + self.rng.below(2);
             let mut chosen: Vec<&str> = Vec::new();
@@ -276,12 +285,41 @@ impl<'a> Gram<'a> {
                     let ann = if self.rng.chance(1, 4) { format!("{} ", self.annotation()) } else { String::new() };
                     if self.rng.chance(1, 2) {
                         let classifier = if self.rng.chance(1, 2) { format!(" : {}", self.tight(d)) } else { String::new() };
-                        s.push_str(&format!(" {}({} as {}{})", ann, self.pattern_ann(1), self.tight(d), classifier));
+                        // the manifest binder sometimes in its own parentheses: `((f = x) as D : C)`
+                        let binder = if self.rng.chance(1, 3) { format!("({})", self.pattern_ann(1)) } else { self.pattern_ann(1) };
+                        s.push_str(&format!(" {}({} as {}{})", ann, binder, self.tight(d), classifier));
                     } else {
                         s.push_str(&format!(" {}({})", ann, self.pattern_ann(1)));
                     }
                 }
                 format!("{} . {}", s, self.term(d))
+            }
+            | 10 if self.rng.chance(1, 3) => {
+                // a scope whose body is a parenthesised binder-level term, nested
+                let scope = |g: &mut Gram| -> String {
+                    match g.rng.below(6) {
+                        | 0 => format!("fn {} =>", g.copattern(1)),
+                        | 1 => format!("pi {} .", g.copattern(1)),
+                        | 2 => format!("forall {} .", g.copattern(1)),
+                        | 3 => format!("sigma {} .", g.copattern(1)),
+                        | 4 => format!("exists ({}) .", g.pattern_ann(1)),
+                        | _ => format!("fix {} =>", g.pattern(1)),
+                    }
+                };
+                let inner = match self.rng.below(6) {
+                    | 0 => format!("(@[doc] {})", self.atom(0)),
+                    | 1 => format!("(@({}))", self.meta(1)),
+                    | 2 => format!("(fn {} => {})", self.lower(), self.atom(0)),
+                    | 3 => format!("(@[format(width(60))] {} -> {})", self.atom(0), self.atom(0)),
+                    | 4 => format!("(fix {} => {})", self.lower(), self.atom(0)),
+                    | _ => format!("({} {})", self.annotation(), self.atom(0)),
+                };
+                let mut out = inner;
+                for _ in 0..1 + self.rng.below(3) {
+                    let sc = scope(self);
+                    out = if self.rng.chance(1, 2) { format!("({} {})", sc, out) } else { format!("{} {}", sc, out) };
+                }
+                out
             }
             | 10 => format!("fn {} =>{}{}", self.copattern(2), self.sp(), self.term(d)),
             | 11 => format!("fix {} =>{}{}", self.pattern(2), self.sp(), self.term(d)),
